@@ -190,6 +190,7 @@ func (c *ctl) ackAttempt(t *rapid.T) {
 	sb := w.SenderSide(p)
 	rb := []*big.Int{w.Balance(p.SrcIdx, p.FeeTok, w.Rels[0].Addr), w.Balance(p.SrcIdx, p.FeeTok, w.Rels[1].Addr)}
 	wasAcked := p.Acked
+	cbBefore := w.CounterValue(p.SrcIdx)
 	if variant == "genuine" && !wasAcked {
 		c.allowedRemoval[comKey(p.T)] = true
 	}
@@ -245,6 +246,18 @@ func (c *ctl) ackAttempt(t *rapid.T) {
 		}
 		if sd.Cmp(wantSd) != 0 {
 			m.Failf("ack (code %d) of %s processed: sender balance changed by %s, expected %s", p.Ack.Code, p.T, sd, wantSd)
+		}
+		// the sender's callback runs exactly once per processed acknowledgement (and only if one was named)
+		cbDelta := w.CounterValue(p.SrcIdx) - cbBefore
+		wantCb := uint64(0)
+		if p.Callback {
+			wantCb = 1
+		}
+		if cbDelta != wantCb {
+			m.Failf("ack (code %d) of %s processed: the sender's callback contract was called %d times, expected %d", p.Ack.Code, p.T, cbDelta, wantCb)
+		}
+		if p.Callback {
+			m.R.Label(fmt.Sprintf("callback_ran_once_code_%d", p.Ack.Code))
 		}
 		m.R.Label(fmt.Sprintf("ack_processed_code_%d", p.Ack.Code))
 		m.Log("ack", fmt.Sprintf("%s genuine code=%d", p.T, p.Ack.Code), "processed")
@@ -369,6 +382,7 @@ func run(t *rapid.T, r *rec.Recorder) {
 		c.commits = append(c.commits, map[string]string{})
 		c.status = append(c.status, map[string]uint8{})
 	}
+	m.UseCallback = true
 	acts := m.BaseActions()
 	delete(acts, "ack")
 	delete(acts, "ack2")
